@@ -448,6 +448,40 @@ class TrAcc(TrProc):
             return b, "(pyFormat %s)" % a
         return TrProc.expr(self, e)
 
+    def block_opt(self, stmts, ind):
+        """functions that return `None` or a string (`Optional[str]`): `if pd.isna(self.F): return None  else: return E`,
+        `return None`, `return E`; every path ends in a return"""
+        pad = "  " * ind
+        if not stmts:
+            raise Unsupported("a path that falls off the end of the function")
+        s, rest = stmts[0], stmts[1:]
+        if isinstance(s, ast.Expr) and isinstance(s.value, ast.Constant):
+            return self.block_opt(rest, ind)
+        if isinstance(s, ast.Return):
+            if s.value is None or (isinstance(s.value, ast.Constant) and s.value.value is None):
+                return "%s.ok none\n" % pad
+            b, t = self.expr(s.value)
+            return self.binds(b, "%s.ok (some %s)\n" % (pad, t), ind)
+        if isinstance(s, ast.If):
+            t, neg = s.test, False
+            if isinstance(t, ast.UnaryOp) and isinstance(t.op, ast.Not):
+                t, neg = t.operand, True
+            fld = self.isna_field(t)
+            if fld is None or fld not in self.self_fields:
+                raise Unsupported("condition of an Optional-returning function")
+            absent = s.body + ([] if self.ends(s.body) else rest)
+            present = (s.orelse or []) + ([] if (s.orelse and self.ends(s.orelse)) else rest)
+            if neg:
+                absent, present = present, absent
+            a = self.block_opt(absent, ind + 1)
+            saved = dict(getattr(self, "bound", {}))
+            self.bound = dict(saved)
+            self.bound[fld] = fld + "_"
+            pr = self.block_opt(present, ind + 1)
+            self.bound = saved
+            return "%smatch self.%s with\n%s| none =>\n%s%s| some %s_ =>\n%s" % (pad, self.self_fields[fld], pad, a, pad, fld, pr)
+        raise Unsupported(type(s).__name__)
+
     def note(self, s):
         if isinstance(s, ast.Assign) and len(s.targets) == 1 and isinstance(s.targets[0], ast.Name) and isinstance(s.value, ast.Dict):
             self.litdicts.add(s.targets[0].id)
@@ -565,6 +599,13 @@ def main():
             out.append("/-- `UABoolean.xml_encode`; a missing value (`pd.NA`) is `none` -/")
             out.append("def bool_xml_encode (self : BoolVal) (%s : Bool) : Except PyErr Str :=" % f.args.args[1].arg)
             out.append(TrAcc({"value": "value"}, consts, enums, {}).stmts(f.body, 1, ".error .typeError"))
+            out.append("")
+            for cls, kind in (("UASByte", "sbyte"), ("UAByte", "byte"), ("UAInt16", "int16"), ("UAUInt16", "uint16"),
+                              ("UAInt32", "int32"), ("UAUInt32", "uint32")):
+                f = find(dt, cls + ".json_encode")
+                out.append("/-- `%s.json_encode` (the `functools.cache` decorator is not part of the translation); `None` is `none` -/" % cls)
+                out.append("def int_json_encode_%s (self : IntVal) : Except PyErr (Option Str) :=" % kind)
+                out.append(TrAcc({"value": "value"}, consts, enums, {}).block_opt(f.body, 1))
     except Unsupported as u:
         print("UNSUPPORTED: %s" % u, file=sys.stderr)
         sys.exit(3)
